@@ -1,10 +1,130 @@
-(* Proof obligations of property C17 (DESIGN 4.17).  Statements only; proofs in Proofs/C17_*.v *)
-From Coq Require Import Ascii String List Bool Arith ZArith Lia.
-From Verif Require Import Lib.Text Lib.Decimal Lib.Dyadic Model.C17_Layout Gen.C17_WriterLayouts Proofs.C17_Instances.
+(* Proof obligations of property C17 (DESIGN 4.17).  Statements only; proofs in Proofs/C17_Layout.v (generic) and
+   Proofs/C17_Instances.v (criteria evaluated on the layouts regenerated from the source, Gen/C17_WriterLayouts.v). *)
+From Coq Require Import Ascii String List Bool Arith ZArith QArith Lia.
+From Verif Require Import Lib.Text Lib.Decimal Lib.Dyadic Model.C17_Layout Gen.C17_WriterLayouts Proofs.C17_Layout Proofs.C17_Instances.
 Import ListNotations.
 Local Open Scope string_scope.
 
+(* ---- writer / parser pairs: the column -> field map every parser column obtains (None = not readable) *)
 Theorem compatible_bernese_crd :
   span_map L_crd P_crd = [Some (PFld 0); Some (PFld 1); Some (PFld 2); Some (PFld 3); Some (PFld 4); Some (PFld 5); Some (PConst "A")].
 Proof. exact compatible_bernese_crd_l. Qed.
 Print Assumptions compatible_bernese_crd.
+
+Theorem compatible_bernese_clu : span_map L_clu P_clu = [Some (PFld 0); Some (PConst ""); Some (PConst "1")].
+Proof. exact compatible_bernese_clu_l. Qed.
+Print Assumptions compatible_bernese_clu.
+
+Theorem compatible_bernese_sta_v52 :
+  span_map L_sta2 P_sta52 =
+  [Some (PFld 0); Some (PFld 1); Some (PConst "001"); Some (PFld 2); Some (PFld 3); Some (PFld 4); Some (PFld 5); Some (PFld 6);
+   Some (PFld 7); Some (PFld 8); Some (PFld 9); Some (PFld 10); Some (PFld 11); Some (PFld 12); Some (PFld 13); Some (PFld 14);
+   Some (PFld 15)].
+Proof. exact compatible_bernese_sta_v52_l. Qed.
+Print Assumptions compatible_bernese_sta_v52.
+
+Theorem bernese_sta_v54_incompatible : compatible L_sta2 P_sta54 = false.
+Proof. exact bernese_sta_v54_incompatible_l. Qed.
+Print Assumptions bernese_sta_v54_incompatible.
+
+Theorem compatible_tms_header :
+  span_map L_tms_header P_tms_header =
+  [Some (PFld 0); Some (PFld 1); Some (PFld 2); Some (PFld 3); Some (PFld 4); Some (PFld 5); Some (PFld 6); Some (PFld 7)].
+Proof. exact compatible_tms_header_l. Qed.
+Print Assumptions compatible_tms_header.
+
+Theorem compatible_tms_file_reference :
+  map (fun l => span_map l P_tms_file_reference)
+      [L_tms_fr_description; L_tms_fr_contact; L_tms_fr_software; L_tms_fr_input; L_tms_fr_version] =
+  [[Some (PConst "DESCRIPTION"); Some (PFld 0)]; [Some (PConst "CONTACT"); Some (PFld 0)]; [Some (PConst "SOFTWARE"); Some (PFld 0)];
+   [Some (PConst "INPUT"); Some (PFld 0)]; [Some (PConst "VERSION NUMBER"); Some (PFld 0)]].
+Proof. exact compatible_tms_file_reference_l. Qed.
+Print Assumptions compatible_tms_file_reference.
+
+Theorem compatible_tms_ref_coordinate :
+  span_map L_tms_refcoord P_tms_refcoord =
+  [Some (PFld 0); Some (PConst "A"); Some (PConst "----"); Some (PConst "P"); Some (PFld 1); Some (PFld 2); Some (PFld 3);
+   Some (PFld 4); Some (PFld 5)].
+Proof. exact compatible_tms_ref_coordinate_l. Qed.
+Print Assumptions compatible_tms_ref_coordinate.
+
+Theorem compatible_tms_columns :
+  span_map L_tms_columns P_tms_columns = [Some (PFld 0); Some (PFld 1); Some (PFld 2); Some (PFld 3)].
+Proof. exact compatible_tms_columns_l. Qed.
+Print Assumptions compatible_tms_columns.
+
+(* ---- SINEX-TMS block markers *)
+Theorem tms_blocks_wf : forallb (fun nb => block_wf (snd nb)) tms_blocks = true /\ List.length tms_blocks = 6%nat.
+Proof. exact tms_blocks_wf_l. Qed.
+Print Assumptions tms_blocks_wf.
+
+Theorem blocks_balanced : forall bs,
+  Forall (fun bb => block_wf (fst bb) = true /\ Forall (fun l => body_line_ok l = true) (snd bb)) bs ->
+  balanced None (file_lines bs) = true.
+Proof. exact blocks_balanced_l. Qed.
+Print Assumptions blocks_balanced.
+
+Theorem tms_rows_start_blank : forall s r cs, body_line_ok (render_c (Lit (String " " s) :: r) cs) = true.
+Proof. exact row_starts_blank_l. Qed.
+Print Assumptions tms_rows_start_blank.
+
+Theorem tms_types_shape :
+  forallb (fun nf => (0 <? f_w (snd nf))%nat && (f_max (snd nf) =? f_w (snd nf))%nat) tms_types = true.
+Proof. exact tms_types_shape_l. Qed.
+Print Assumptions tms_types_shape.
+
+Theorem sta_fields_in_ruler :
+  fields_in_ruler ruler_sta1 L_sta1 = true /\ fields_in_ruler ruler_sta2 L_sta2 = true /\ fields_in_ruler ruler_sta3 L_sta3 = true.
+Proof. exact sta_fields_in_ruler_l. Qed.
+Print Assumptions sta_fields_in_ruler.
+
+(* ---- rows read by splitting on white space *)
+Theorem tokens_pieces : forall ps gend, Forall (fun p => is_token (snd p) = true) ps ->
+  (split_ws (pieces_str ps gend) = map snd ps <-> gaps_ok ps = true).
+Proof. exact tokens_pieces_l. Qed.
+Print Assumptions tokens_pieces.
+
+Theorem tms_tokens : forall lead ws cs, List.length ws = List.length cs ->
+  Forall (fun c => is_token c = true) cs ->
+  (split_ws (row_line lead ws cs) = cs <-> Forall2 (fun w c => (len c < w)%nat) (tl ws) (tl cs)).
+Proof. exact tms_tokens_l. Qed.
+Print Assumptions tms_tokens.
+
+Theorem token_row_sound : forall lay cs ps ge,
+  lay_pieces 0 lay cs = Some (ps, ge) -> fits lay cs = true -> Forall (fun c => is_token c = true) cs ->
+  (parse_tokens (render_c lay cs) = cs <-> gaps_ok ps = true).
+Proof. exact token_row_sound_l. Qed.
+Print Assumptions token_row_sound.
+
+Theorem tms_domain_fits :
+  forallb (fun nd => match lookup_fld tms_types (fst nd) with Some f => fix_width_ok true f (snd nd) | None => false end) tms_domain = true.
+Proof. exact tms_domain_fits_l. Qed.
+Print Assumptions tms_domain_fits.
+
+Theorem crd_domain_fits :
+  forallb (fun i => fix_width_ok false (nth_fld L_crd i) 999999999999%Z) [3; 4; 5]%nat = true /\
+  forallb (fun i => fix_width_ok false (nth_fld L_tms_refcoord i) 99999999999%Z) [2; 3; 4]%nat = true.
+Proof. exact crd_domain_fits_l. Qed.
+Print Assumptions crd_domain_fits.
+
+(* ---- numbers *)
+Theorem fits_characterisation : forall w d m, (0 < d)%nat ->
+  (d + 2 + (if (m <? 0)%Z then 1 else 0) <= w)%nat ->
+  (fits_F w d m <-> (Z.abs m < 10 ^ (Z.of_nat w - (if (m <? 0)%Z then 2 else 1)))%Z).
+Proof. exact fits_characterisation_l. Qed.
+Print Assumptions fits_characterisation.
+
+Theorem narrower_characterisation : forall w d m, (0 < d)%nat ->
+  (d + 3 + (if (m <? 0)%Z then 1 else 0) <= w)%nat ->
+  ((len (render_F_raw d m) < w)%nat <-> (Z.abs m < 10 ^ (Z.of_nat w - (if (m <? 0)%Z then 3 else 2)))%Z).
+Proof. exact narrower_characterisation_l. Qed.
+Print Assumptions narrower_characterisation.
+
+Theorem fix_readback : forall d m e,
+  let r := fix_mant d m e in (r <> 0 \/ 0 < m)%Z -> parse_float (py_fix d (Dy m e)) = Some (dec_value r d).
+Proof. exact fix_readback_l. Qed.
+Print Assumptions fix_readback.
+
+(* non-vacuity: "%12.4f" % 999999.9999 has 11 characters (fits with a blank), 1000000.0 has 12 (no blank left) *)
+Example east_fits : (len (render_F_raw 4 9999999999) < 12)%nat /\ ~ (len (render_F_raw 4 10000000000) < 12)%nat.
+Proof. split; vm_compute; lia. Qed.
